@@ -122,7 +122,7 @@ func TestC01(t *testing.T) {
 			c01Part.EvalCase(s, f)
 		}
 	}
-	c01Part.Run(s, hx.PerShard(hx.Pick(1600, 16000)))
+	c01Part.Run(s, hx.PerShard(hx.Pick(1600, 64000)))
 }
 
 // ------------------------------------------------------------------ C03 determinism / spec conformance
@@ -411,6 +411,6 @@ func TestC03(t *testing.T) {
 			Open: []opening{{Poly: 0, Z: 5}, {Poly: 0, Z: 5}, {Poly: 1, Z: 5}, {Poly: 0, Z: 5, Share: 1}, {Poly: 0, Z: 5, Rep: 3, Lambda: 9}, {Poly: 1, Z: 6}, {Poly: 1, Z: 6}}}
 		c03Multi.EvalCase(s, c03Case{Set: dup, Rep2: 1})
 	}
-	c03Multi.Run(s, hx.PerShard(hx.Pick(480, 6400)))
-	c03IPA.Run(s, hx.PerShard(hx.Pick(160, 2400)))
+	c03Multi.Run(s, hx.PerShard(hx.Pick(480, 12800)))
+	c03IPA.Run(s, hx.PerShard(hx.Pick(160, 4800)))
 }
